@@ -173,9 +173,65 @@ class Model:
                         obj["__removed__"].append(n)
                         interp.trace.append(("remove", n, call))
                         return None
+                # a helper method of the same object (code factored out of the analysed function): interpret it in place
+                if isinstance(f.value, ast.Name) and f.value.id == "self":
+                    target = model.resolve_helper(interp, call, meth)
+                    if target is not None:
+                        return model.inline(interp, call, target, hook)
+            if name in ("reversed", "list", "tuple", "len", "enumerate"):
+                args = [interp.ev(a) for a in call.args]
+                res = {"reversed": lambda v: list(reversed(v)), "list": list, "tuple": tuple, "len": len,
+                       "enumerate": lambda v: [list(x) for x in enumerate(v)]}[name](*args)
+                return res
             raise AnalysisError(f"cell model: unsupported call {name!r} at line {call.lineno}")
 
         return hook
+
+    def resolve_helper(self, interp, call, meth):
+        cur = interp.env.get("__cls__")
+        if cur is not None:
+            return self.prog.find_method(cur, meth)
+        node = call
+        while node is not None and not isinstance(node, ast.ClassDef):
+            node = getattr(node, "_parent", None)
+        if node is None:
+            return None
+        mod = getattr(node, "_module", None)
+        cinfo = self.prog.classes.get(f"{mod.rel}::{node.name}") if mod is not None else None
+        return self.prog.find_method(cinfo, meth) if cinfo is not None else None
+
+    def inline(self, interp, call, finfo, hook, depth_limit=6):
+        depth = interp.env.get("__depth__", 0)
+        if depth >= depth_limit:
+            raise AnalysisError(f"cell model: helper calls nested deeper than {depth_limit} at line {call.lineno}")
+        fn = finfo.node
+        params = [a.arg for a in fn.args.args]
+        env = {params[0]: interp.env.get("self", {"__biomol__": True}), "__depth__": depth + 1}
+        for k in ("__dist__", "__cls__"):
+            if k in interp.env:
+                env[k] = interp.env[k]
+        names = params[1:]
+        defaults = fn.args.defaults
+        kws = {k.arg: k.value for k in call.keywords if k.arg}
+        for i, pname in enumerate(names):
+            if i < len(call.args):
+                env[pname] = interp.ev(call.args[i])
+            elif pname in kws:
+                env[pname] = interp.ev(kws[pname])
+            else:
+                j = i - (len(names) - len(defaults))
+                if j < 0:
+                    raise AnalysisError(f"cell model: missing argument {pname!r} in helper call at line {call.lineno}")
+                env[pname] = interp.ev(defaults[j])
+        sub = Interp(env, call_hook=hook, loop_hook=self.loop_hook())
+        sub.trace = interp.trace  # effects of the helper are effects of the caller
+        try:
+            sub.run(fn.body)
+        except Flow as fl:
+            if fl.kind == "return":
+                return fl.value
+            raise
+        return None
 
     def loop_hook(self):
         def hook(interp: Interp, st):
